@@ -415,6 +415,28 @@ def run(case):
                     if fam.endswith("mini"):
                         uex[np.unique(mesh.cells[:, -1])] = 0
                     c.close(sub + f"/displacement{i}", "displacement field of substep i = homogeneous deformation of the i-th ramp value", seen[i], uex, scale=max(np.abs(uex).max(), 0.1))  # 0.1: amplitude of the history (the zero state carries the Newton tolerance only)
+        # a body made of two phases on ONE field (the same material scaled by the item multipliers 0.3 and 0.7): the curve records
+        # the force of the items it is given -- all of them by default, the listed ones with items=[...] (each with its factor)
+        if kind == "uniaxial" and n == 1:
+            lam_p = 1.25
+            l = solve_free(W, {0: lam_p}, [1, 2]) if d == 3 else solve_free(W, {0: lam_p, 2: 1.0}, [1])
+            P11 = dW(W, l, 0)
+            for ilab, sel, fac in (("default", None, 1.0), ("a,b", (0, 1), 1.0), ("b,a", (1, 0), 1.0), ("a", (0,), 0.3), ("b", (1,), 0.7)):
+                mesh, region, twin = build(fam, "distorted", seed, n=n)
+                Fcls = fem.Field if d == 3 else fem.FieldPlaneStrain
+                field = fem.FieldContainer([Fcls(region, dim=d)])
+                phases = [fem.SolidBody(um, field, multiplier=0.3), fem.SolidBody(um, field, multiplier=0.7)]
+                bounds, lc = fem.dof.uniaxial(field, clamped=False, move=0.0, axis=0, sym=True)
+                step = fem.Step(phases, ramp={bounds["move"]: [0.5 * (lam_p - 1), lam_p - 1]}, boundaries=bounds)
+                kw_ = {} if sel is None else dict(items=[phases[i] for i in sel])
+                job = fem.CharacteristicCurve(steps=[step], boundary=bounds["move"], **kw_)
+                job.evaluate(verbose=False)
+                c.trans += 2
+                c.close(f"phases/items={ilab}/force", "recorded force of a two-phase body (item multipliers 0.3 / 0.7) for the given item list = factor x analytic stress x area", np.array(job.y)[-1][0], fac * P11, scale=max(abs(P11), 0.1))
+                uex = mesh.points @ (np.diag(l[:d]) - np.eye(d)).T
+                if fam.endswith("mini"):
+                    uex[np.unique(mesh.cells[:, -1])] = 0
+                c.close(f"phases/items={ilab}/displacement", "displacement field of the two-phase body = homogeneous deformation", job.res.x[0].values, uex, scale=max(np.abs(uex).max(), 1e-3))
         for lam, us in finals.items():
             for k in range(1, len(us)):
                 c.close(f"lam={lam}/subdivision-independence/{k}", "final state independent of the ramp subdivision", us[k], us[0], scale=max(np.abs(us[0]).max(), 1e-3))
